@@ -63,8 +63,8 @@ func NeedsHTMLEscape(s string) bool {
 func FormatAttr(val string) string {
 	var b strings.Builder
 
-	// Trim leading and trailing whitespace
-	val = strings.TrimSpace(val)
+	// Trim leading and trailing HTML whitespace (a no-break space is content)
+	val = strings.Trim(val, " \t\n\r\f")
 
 	// Replace newlines with spaces
 	val = strings.ReplaceAll(val, "\n", " ")
